@@ -1,0 +1,20 @@
+//go:build verif
+
+package jobs
+
+// Accessors for the C15 verification harness (build tag verif only).
+
+// VerifStatus returns the job status as text (Init / Paused / Starting / Running).
+func (j *Job) VerifStatus() string { return j.status.String() }
+
+// VerifSync returns after every task queued before it has been executed.
+func (j *Job) VerifSync() {
+	done := make(chan struct{})
+	j.taskQueue <- func() error { close(done); return nil }
+	<-done
+}
+
+// VerifCurrentCheckpointID returns the id of the latest completed checkpoint (0 if none).
+func (j *Job) VerifCurrentCheckpointID() uint64 {
+	return j.snapshotStore.CurrentCheckpoint().GetId()
+}
